@@ -166,3 +166,37 @@ Fixpoint parse_params_list (l : list (list N)) (acc : params) : res params :=
 (* Parameters.from_ical(st)  (strict=False) *)
 Definition params_from_ical (st : list N) : res params :=
   parse_params_list (q_split st 59 None) [].
+
+(* ------------------------------------------------------------------ guards and canonical forms used by C08 / C05 *)
+Definition no_chr (c : N) (s : list N) : bool := negb (mem_chr c s).
+Definition nonempty_b (k : list N) : bool := match k with [] => false | _ => true end.
+(* RFC token (iana-token / x-name), ASCII *)
+Definition is_token (k : list N) : bool := nonempty_b k && forallb is_token_chr k.
+(* a parameter value the parser accepts after DQUOTE -> apostrophe: no control characters *)
+Definition wf_val (v : list N) : bool := negb (existsb (in_ranges QUNSAFE_CHAR_ranges) (dq_clean v)).
+Definition wf_pval (v : pval) : bool :=
+  match v with PStr s => wf_val s | PList l => forallb wf_val l end.
+
+Fixpoint nodup_strs (l : list (list N)) : bool :=
+  match l with
+  | [] => true
+  | x :: r => negb (existsb (str_eqb x) r) && nodup_strs r
+  end.
+
+(* names are tokens in any letter case, pairwise different after upper-casing *)
+Definition wf_params (ps : params) : bool :=
+  forallb (fun kv : list N * pval => is_token (fst kv) && wf_pval (snd kv)) ps
+  && nodup_strs (map (fun kv : list N * pval => upper (fst kv)) ps).
+
+(* what comes back: upper-cased name; DQUOTE replaced by apostrophe; an empty or one-element
+   list is the same wire text as the bare string *)
+Definition canon_pval (v : pval) : pval :=
+  match v with
+  | PStr s => PStr (dq_clean s)
+  | PList [] => PStr []
+  | PList [x] => PStr (dq_clean x)
+  | PList l => PList (map dq_clean l)
+  end.
+Definition canon_params (ps : params) : params :=
+  map (fun kv : list N * pval => (upper (fst kv), canon_pval (snd kv))) ps.
+Definition order_params (sorted : bool) (ps : params) : params := if sorted then sort_items ps else ps.
